@@ -185,6 +185,19 @@ def _one_config(obj_name, target, ci, ext, proto):
             loads.append(("file object without peek", joblib.load(NoPeek(data))))
             loads.append(("file object named by its fd", joblib.load(Named(data, 7))))
             loads.append(("file object with name None", joblib.load(Named(data, None))))
+            # the object does not start at offset 0 of the file object / the reader's buffer is short
+            pre = io.BytesIO(b"junk" + data)
+            pre.seek(4)
+            loads.append(("in-memory buffer positioned after 4 foreign bytes", joblib.load(pre)))
+            pre = NoPeek(b"junk" + data)
+            pre.seek(4)
+            loads.append(("file object without peek positioned after 4 foreign bytes", joblib.load(pre)))
+            br = io.BufferedReader(io.BytesIO(b"junk" + data))
+            br.read(4)
+            loads.append(("buffered reader after reading 4 foreign bytes", joblib.load(br)))
+            for bsz in (1, 4):
+                loads.append(("buffered reader with a %d-byte buffer" % bsz,
+                              joblib.load(io.BufferedReader(io.BytesIO(data), buffer_size=bsz))))
         except Exception as e:
             probs.append("load failed (%s so far ok): %s: %s" % ([n for n, _ in loads], type(e).__name__, e))
             return probs
